@@ -172,13 +172,11 @@ Proof. exact selected_eq_sound. Qed.
 Theorem dispatch_numbers_match_enum : dispatch_numbers_ok = true.
 Proof. exact dispatch_numbers_check. Qed.
 
-(* Extracted/DispatchArms.v (regenerated from the .inc files on every run): opcodes the model
-   treats as one operation share a match arm; every modelled opcode has an arm; no arm of the
-   arithmetic / comparison / bitwise / control-flow dispatch calls as_int_unchecked /
-   as_float_unchecked *)
+(* Extracted/DispatchArms.v (regenerated from the .inc files on every run): every modelled opcode
+   has a match arm, and no arm of the arithmetic / comparison / bitwise / control-flow dispatch
+   calls as_int_unchecked / as_float_unchecked *)
 Theorem dispatch_arms_match_model :
-  model_aliases_in_code = true /\ modelled_opcodes_have_arms = true /\
-  no_unchecked_accessor_in_dispatch = true.
+  modelled_opcodes_have_arms = true /\ no_unchecked_accessor_in_dispatch = true.
 Proof. exact dispatch_arms_facts. Qed.
 
 (* ---------------------------------------------------------------- the OLD definitions (record of the defects) *)
